@@ -372,6 +372,12 @@ func registerExternals(e *Engine) {
 		msg, _ := a[1].(string)
 		return p.eng.makeError(p, "rpc error: "+msg, nil)
 	}
+	x["google.golang.org/grpc/status.Code"] = func(p *Path, th *Thread, fr *frame, a []Value) Value {
+		if a[0].(Iface).T == nil {
+			return ConstT(32, 0)
+		}
+		return ConstT(32, 2) // codes.Unknown
+	}
 	x["google.golang.org/grpc/status.Errorf"] = func(p *Path, th *Thread, fr *frame, a []Value) Value {
 		return p.eng.makeError(p, "rpc error", nil)
 	}
@@ -941,6 +947,9 @@ func (p *Path) toNative(th *Thread, fr *frame, v Value, depth int) any {
 			}
 			return opaque("<sym-error>")
 		}
+		if pkgOpaqueType(p, v.T) {
+			return opaque("<" + v.T.String() + ">")
+		}
 		if p.hasMethodSig(v.T, "String", 0) {
 			s := p.callMethod(th, fr, v, "String")
 			if str, ok := s.(string); ok {
@@ -1009,4 +1018,17 @@ func (p *Path) nativeOf(th *Thread, fr *frame, t types.Type, v Value, depth int)
 		return opaque(valString(x))
 	}
 	return opaque(valString(v))
+}
+
+// pkgOpaqueType reports whether t (or what it points to) is declared in a
+// package whose code the engine does not interpret (e.g. generated protobuf
+// messages: their String/Error methods go through reflection).
+func pkgOpaqueType(p *Path, t types.Type) bool {
+	if pt, ok := t.(*types.Pointer); ok {
+		t = pt.Elem()
+	}
+	if n, ok := t.(*types.Named); ok && n.Obj() != nil && n.Obj().Pkg() != nil {
+		return p.eng.opaquePkg(n.Obj().Pkg().Path())
+	}
+	return false
 }
